@@ -137,4 +137,18 @@ template void r_use<msm::back::state_machine<RF_>>();
 template void r_use<msm::back::state_machine<RF_, msm::back::favor_compile_time>>();
 template void r_use<msm::backmp11::state_machine_adapter<RF_>>();
 template void r_use<msm::backmp11::state_machine_adapter<RF_, msm::backmp11::favor_compile_time>>();
+// state-behaviour (three-argument) forms of the composing functors, as eUML state entry / exit expressions use them
+struct r_sg1 { template <class E, class F, class S> bool operator()(E const&, F&, S&) { return true; } };
+struct r_sg2 { template <class E, class F, class S> bool operator()(E const&, F&, S&) { return false; } };
+struct r_sa1 { template <class E, class F, class S> void operator()(E const&, F&, S&) {} };
+struct r_sa2 { template <class E, class F, class S> void operator()(E const&, F&, S&) {} };
+template <class M>
+bool r_state_forms(M& m, r_st& st)
+{
+    r_e1 e;
+    msm::front::ActionSequence_<mpl::vector<r_sa1, r_sa2>>()(e, m, st);
+    return msm::front::And_<r_sg1, msm::front::Not_<r_sg2>>()(e, m, st) || msm::front::Or_<r_sg2, r_sg1>()(e, m, st);
 }
+template bool r_state_forms<msm::back::state_machine<RF_>>(msm::back::state_machine<RF_>&, r_st&);
+}
+int main() { return 0; }
